@@ -2,7 +2,8 @@
 (* code -> spec, one TLC state per record:
    fn = "hk"    : Data_K_R.HH_K of a real System_R with Gaussian-integer hoppings at k = kn/4 + G (rounded, integrality verified)
    fn = "degen" : Data_K.degen of a real Data_K on a diagonal model (energies integers x unit)
-   fn = "uu"    : pairs of bands that Data_K.UU_K (random_gauge=True) actually mixed *)
+   fn = "uu"    : pairs of bands that Data_K.UU_K (random_gauge=True) actually mixed
+   fn = "tetra" : band blocks a tetrahedron calculator traces (Fermi sea) *)
 EXTENDS Periodicity, Json, IOUtils, TLCExt
 VARIABLES i, rec          \* rec = the record itself: read once in the initial predicate, materialised in the state
 Recs == JsonDeserialize(IOEnv.TRACE_FILE).recs
@@ -25,7 +26,13 @@ DegenClauses ==
 UUClauses ==
    LET E == AsSeq(Rec.E) IN
    [ mixes_only_inside_blocks |-> \A j \in 1..Len(Rec.mixed) : <<Rec.mixed[j][1], Rec.mixed[j][2]>> \in MayMix(E, Rec.th) ]
-Clauses == CASE Rec.fn = "hk" -> HkClauses [] Rec.fn = "degen" -> DegenClauses [] Rec.fn = "uu" -> UUClauses
+(* fn = "tetra": keys of TetraWeights.weights_all_band_groups(eFermi, der=0) for one k-point; energies in half units *)
+TetraClauses ==
+   LET E == AsSeq(Rec.E)  lo == AsSeq(Rec.lo)  hi == AsSeq(Rec.hi)  T == PairsOf(Rec.out)
+       exp == TetraTraced(E, lo, hi, Rec.th, Rec.ef0, Rec.ef1, TRUE) IN
+   [ equals_spec |-> Len(T) = Len(exp) /\ {T[j] : j \in 1..Len(T)} = {exp[j] : j \in 1..Len(exp)},
+     unions_of_multiplets |-> UnionsOfMultiplets(T, DegenRG(E, Rec.thg)) ]
+Clauses == CASE Rec.fn = "hk" -> HkClauses [] Rec.fn = "degen" -> DegenClauses [] Rec.fn = "uu" -> UUClauses [] Rec.fn = "tetra" -> TetraClauses
 Report == LET C == Clauses IN \A n \in DOMAIN C : C[n] \/ PrintT(<<"BAD", i, n>>)      \* the table is evaluated once
 RecInit == \E rs \in {Recs} : i \in 1..Len(rs) /\ rec = rs[i]
 RecSpec == RecInit /\ [][UNCHANGED <<i, rec>>]_<<i, rec>>
